@@ -622,6 +622,24 @@ func (s *ClientScenario) checkClient(run *clientRun, ex *vs.Exec) (violation, ou
 			if has("L") && injected && ret.T != cv.inv.T+T*((int64(1)<<uint(len(cv.tx)))-1) {
 				return fail("L4-write-error-instant", fmt.Sprintf("call %d reported the write error at t=%d, the failing transmission was due at t=%d", ci, ret.T, cv.inv.T+T*((int64(1)<<uint(len(cv.tx)))-1)))
 			}
+			if !injected && closeCall != nil && closeCall.Seq < ret.Seq && has("L") && closeCall.T > cv.inv.T {
+				// a write error is a legitimate outcome of Close only when Close raced with a transmission,
+				// i.e. happened at the very instant a try starts; a call that was waiting inside a try must
+				// report the no-response error
+				atBoundary := false
+				for k := 0; k <= 62; k++ {
+					b := cv.inv.T + T*((int64(1)<<uint(k))-1)
+					if b == closeCall.T {
+						atBoundary = true
+					}
+					if b >= closeCall.T {
+						break
+					}
+				}
+				if !atBoundary {
+					return fail("L4-close-error", fmt.Sprintf("call %d was waiting when Close was called at t=%d but returned a write error instead of the no-response error", ci, closeCall.T))
+				}
+			}
 			if !injected && (closeCall == nil || closeCall.Seq > ret.Seq) {
 				return fail("R4-error", fmt.Sprintf("call %d failed with a write error but the connection was open", ci))
 			}
